@@ -50,12 +50,14 @@ def run(ctx):
     for oname in ORDERS:
         bind = {"order": Obj("enum", f"Order.{oname}")}
         mf = rm.build(rc, "rdp._rdp_fixed", dict(bind))
-        mg = rm.build(rc, "rdp._grdp", dict(bind, cost=Obj("enum", "Metrics.smape")))
+        mg = rm.build(rc, "rdp._grdp", dict(bind, cost=Obj("enum", "Metrics.smape")), allow_break=True)
         _align(rc, mf, mg, oname)
     # ---- G2 / G3 -------------------------------------------------------------------
     for mname in METRICS:
         mg = rm.build(rc, "rdp._grdp", {"order": Obj("enum", "Order.segment"), "cost": Obj("enum", f"Metrics.{mname}")})
         _accept(rc, mg, mname)
+    for q_ in ("rdp.grdp", "rdp.mp_grdp"):
+        rm.check_distance_dispatch(rc, "G1", q_)
     _g3(rc, mg)
     _mp_grdp(rc)
     _min_point(rc)
@@ -96,10 +98,14 @@ def _align(rc: RuleCtx, mf: rm.LoopModel, mg: rm.LoopModel, oname: str):
                 rev = ast.unparse(kw.value)
                 rev = {"False": False, "True": True}.get(rev, rev)
         return (key, rev)
-    sf = [sort_sig(e.node) for e in mf.events if e.kind == "sort" and e.target == mf.stack]
-    sg = [sort_sig(e.node) for e in mg.events if e.kind == "sort" and e.target == mg.stack]
+    # the sort must run on every path of the step (its guard is part of the signature): the work stack is handed over
+    # sorted, to the next iteration and - in mp_grdp - to the fixed-size continuation
+    sf = [(sort_sig(e.node), e.guard.key) for e in mf.events if e.kind == "sort" and e.target == mf.stack]
+    sg = [(sort_sig(e.node), e.guard.key) for e in mg.events if e.kind == "sort" and e.target == mg.stack]
     if sf != sg or not sf:
-        problems.append(("priority sort of the work stack", str(len(sg)), str(len(sf))))
+        gs = [str(e.guard)[:120] for e in mg.events if e.kind == "sort" and e.target == mg.stack]
+        problems.append(("priority sort of the work stack (skipped or conditional on some path: the stack is left unsorted for the next pop)",
+                         f"{len(sg)} sort(s) under {gs}", f"{len(sf)} unconditional sort(s)"))
     # pops
     pf = [[ast.unparse(a) for a in e.node.args] for e in mf.events if e.kind == "pop"]
     pg = [[ast.unparse(a) for a in e.node.args] for e in mg.events if e.kind == "pop"]
@@ -128,6 +134,8 @@ def _align(rc: RuleCtx, mf: rm.LoopModel, mg: rm.LoopModel, oname: str):
             res.violation("G1", mg.fi.module, mg.fi.name, mg.loop,
                           f"[{oname}] the global-RDP refinement step differs from the fixed-size one in its {what}: the two no longer generate the same refinement sequence S_k",
                           got, want, construct=f"alignment {what}")
+    elif mg.out.breaks:
+        raise AnalysisError("rdp._grdp: the refinement loop is left with `break` - shape not recognised")
     else:
         res.ok("G1", tag, "same pop, split index, retained index, pushes (guards, priorities, ranges) and priority sort")
 
